@@ -40,12 +40,59 @@ def gen_loop_program(rng):
     return prog
 
 
+def gen_threaded(rng, ic):
+    """threaded code: every block ends with a table-driven jump, so the fetch-block sequence is an
+    arbitrary chosen sequence (re-visits during warm-up, conflicts in one set, ...).
+    Returns (program, register presets, memory presets)"""
+    ib, bb = ic[0], ic[1]
+    blk = (1 << bb) * 4                    # bytes per cache block
+    nblocks = rng.randrange(3, 8)
+    spacing_blocks = rng.choice([1, 1 << ib, 1 << ib, 2])      # same set when spacing = number of sets
+    starts = [k * spacing_blocks * blk for k in range(nblocks)]
+    # dispatch: lw x5,0(x6); addi x6,x6,4; jalr x0,x5,0   (needs 12 bytes; blocks are at least that far apart?)
+    step = max(spacing_blocks * blk, 16)
+    starts = [k * step for k in range(nblocks)]
+    end = nblocks * step
+    prog = [[MN["addi"], 0, 0, 0]] * (end // 4)
+    prog = [list(x) for x in prog]
+    for st in starts:
+        i = st // 4
+        prog[i] = [MN["lw"], 5, 6, 0]
+        prog[i + 1] = [MN["addi"], 6, 6, 4]
+        prog[i + 2] = [MN["jalr"], 0, 5, 0]
+        prog[i + 3] = [MN["addi"], 7, 7, 1]           # never executed on path (wrong-path fetch in five-stage)
+    seq = [rng.randrange(nblocks) for _ in range(rng.randrange(4, 14))]
+    table = [starts[k] for k in seq[1:]] + [end]
+    mem = []
+    for j, a in enumerate(table):
+        for b in range(4):
+            mem.append([0x4000 + 4 * j + b, (a >> (8 * b)) & 255])
+    # entry: jump to the first block of the sequence
+    prog[0:0] = []
+    regs = [[6, 0x4000]]
+    first = starts[seq[0]]
+    if first != 0:
+        # block 0 is at address 0: start by dispatching through the table instead
+        table = [starts[k] for k in seq] + [end]
+        mem = []
+        for j, a in enumerate(table):
+            for b in range(4):
+                mem.append([0x4000 + 4 * j + b, (a >> (8 * b)) & 255])
+    return prog, regs, mem
+
+
 class ICache(Slice):
     name = "icache"
 
     def gen(self, rng, index, tier):
-        prog = gen_loop_program(rng) if rng.random() < 0.6 else gen_rv.gen_program(rng, maxlen=20, allow_fault=False)
         ic = gen_rv.gen_cache_cfg(rng, small=False)
+        r = rng.random()
+        if r < 0.4:
+            if rng.random() < 0.6:
+                ic[0], ic[1] = rng.choice([0, 0, 1]), rng.choice([0, 1, 2])     # few sets: conflicts
+            prog, regs, mem = gen_threaded(rng, ic)
+            return {"spec": [prog, regs, mem, [], ic], "five": rng.random() < 0.5, "steps": 500}
+        prog = gen_loop_program(rng) if r < 0.75 else gen_rv.gen_program(rng, maxlen=20, allow_fault=False)
         return {"spec": gen_rv.gen_state_spec(rng, prog, [], ic), "five": rng.random() < 0.5, "steps": 500}
 
     def run(self, case, model):
